@@ -6,6 +6,7 @@ use crate::verif_support::*;
 fn frame_with(layer: Layer, n: usize, ids: &[u8; 16]) -> AlpideReadoutFrame {
     let mut f = AlpideReadoutFrame::new(0x40);
     f.from_layer = Some(layer);
+    f.lane_data_frames = Vec::with_capacity(16);
     let mut i = 0;
     while i < n {
         f.lane_data_frames.push(LaneDataFrame::new(ids[i], Vec::new()));
@@ -15,7 +16,7 @@ fn frame_with(layer: Layer, n: usize, ids: &[u8; 16]) -> AlpideReadoutFrame {
     f
 }
 
-// @harness id=bnd_frame_lane_count_ob props=C13,C04 kind=bnd tier=quick bound=lanes<=15,fatal<=2 fns=AlpideReadoutFrame::check_frame_lanes_valid,AlpideReadoutFrame::from_layer,AlpideReadoutFrame::close_frame stubs=alloc::fmt::format
+// @harness id=bnd_frame_lane_count_ob props=C13,C04 kind=bnd tier=quick bound=lanes_6..9/12..15,fatal<=2 fns=AlpideReadoutFrame::check_frame_lanes_valid,AlpideReadoutFrame::from_layer,AlpideReadoutFrame::close_frame stubs=alloc::fmt::format
 // Middle barrel frames carry 8 lanes, outer barrel 14, fewer only by the lanes that announced a fatal state.
 #[kani::proof]
 #[kani::stub(alloc::fmt::format, stub_format_nonempty)]
@@ -23,8 +24,9 @@ fn frame_with(layer: Layer, n: usize, ids: &[u8; 16]) -> AlpideReadoutFrame {
 fn bnd_frame_lane_count_ob() {
     let outer: bool = kani::any();
     let n: usize = kani::any();
-    kani::assume(n <= 15);
-    let ids: [u8; 16] = kani::any();
+    // lane counts around the expected ones (6..=9 for ML, 12..=15 for OL)
+    kani::assume(if outer { n >= 12 && n <= 15 } else { n >= 6 && n <= 9 });
+    let ids: [u8; 16] = [0x40; 16];
     let f = frame_with(if outer { Layer::Outer } else { Layer::Middle }, n, &ids);
     let fatal: [u8; 2] = kani::any();
     let k: usize = kani::any();
